@@ -362,24 +362,33 @@ DevRecvAfterDisc(o) ==
 \* the abstract state: a linearization step commutes with `call`, `pend` and `wake`
 \* records (they only add operations or flags), so it can always be postponed past
 \* them.  This keeps the search small without losing any explanation.
+\* A future only runs when it is polled: its own linearization steps can only happen in the
+\* poll whose outcome is the next record (a `pend` or `ret` of that very future).  A future that
+\* was never polled may have acted at its creation; thread operations can act at any time.
+NextKind == Rec[l].k
+InWindow(o) ==
+  IF pend[o].fut /\ pend[o].started
+    THEN (IF NextKind \in {"pend", "ret"} THEN Rec[l].o = o ELSE FALSE)
+    ELSE (IF NextKind = "pend" THEN Rec[l].o = o ELSE TRUE)
+
 LinStep ==
   /\ l <= N
-  /\ Rec[l].k \notin {"call", "pend", "wake", "wake_stale", "new"}
-  /\ \/ /\ \E o \in DOMAIN pend : SendOne(o) /\ UNCHANGED disc
+  /\ NextKind \notin {"call", "wake", "wake_stale", "new"}
+  /\ \/ /\ \E o \in DOMAIN pend : InWindow(o) /\ SendOne(o) /\ UNCHANGED disc
         /\ UNCHANGED <<devs, aux>>
-     \/ /\ \E o \in DOMAIN pend : SendDone(o) \/ SendClosed(o) \/ SendSent(o) \/ SendFull(o) \/ RecvDone(o)
+     \/ /\ \E o \in DOMAIN pend : InWindow(o) /\ (SendDone(o) \/ SendClosed(o) \/ SendSent(o) \/ SendFull(o) \/ RecvDone(o))
         /\ UNCHANGED <<devs, aux>>
-     \/ /\ \E o \in DOMAIN pend : RecvOne(o)
+     \/ /\ \E o \in DOMAIN pend : InWindow(o) /\ RecvOne(o)
         /\ aux' = [aux EXCEPT !.hoard = IF Dev("F12") THEN @ + 1 ELSE 0]
         /\ UNCHANGED devs
-     \/ /\ \E o \in DOMAIN pend : RecvEmpty(o) \/ RecvDisc(o)
+     \/ /\ \E o \in DOMAIN pend : InWindow(o) /\ (RecvEmpty(o) \/ RecvDisc(o))
         /\ aux' = [aux EXCEPT !.hoard = 0]
         /\ UNCHANGED devs
-     \/ /\ \E s, r \in DOMAIN pend : Handoff(s, r)
+     \/ /\ \E s, r \in DOMAIN pend : (InWindow(s) \/ InWindow(r)) /\ Handoff(s, r)
         /\ UNCHANGED <<devs, aux>>
      \/ /\ \E o \in DOMAIN pend : LifeLin(o)
         /\ UNCHANGED <<devs, aux>>
-     \/ /\ \E o \in DOMAIN pend : DevRecvAfterDisc(o)
+     \/ /\ \E o \in DOMAIN pend : InWindow(o) /\ DevRecvAfterDisc(o)
         /\ aux' = [aux EXCEPT !.hoard = IF Dev("F12") THEN @ + 1 ELSE 0]
   /\ UNCHANGED l
 
